@@ -7,6 +7,7 @@ from .._change import ListInsert
 from .._change import Replace
 from .._global_state import state
 from .._sentinels import undefined
+from .._unmanaged import Unmanaged
 from .._utils import value_to_token
 from .generic_value import GenericValue
 from .generic_value import clone
@@ -55,6 +56,10 @@ class CollectionValue(GenericValue):
                 continue
 
             # check for update
+            if isinstance(old_value, Unmanaged) or isinstance(old_node, ast.JoinedStr):
+                # the parts which are controlled by the user are not changed
+                continue
+
             new_token = value_to_token(old_value)
 
             if (
